@@ -413,6 +413,20 @@ static void exec_line(char *line)
             put_hex("out=", out, n);
             fprintf(OUT, " slack=%s inputs=%s\n", slack_ok(out, 0, n) ? "ok" : "BAD", inputs_ok(2) ? "ok" : "BAD");
             free(pw.p); free(salt.p);
+        } else if (!strcmp(tok[0], "pbkdf2.tail") && nt == 6) {
+            /* long outputs: only the last k bytes and a checksum of the whole output are printed */
+            size_t n = strtoul(tok[1], 0, 10); unsigned long count = strtoul(tok[4], 0, 10); size_t k = strtoul(tok[5], 0, 10), i;
+            bytes_t pw = parse_hex(tok[2]), salt = parse_hex(tok[3]);
+            const unsigned char *pp = place(0, pw.p, pw.n, pw.is_null), *sp = place(1, salt.p, salt.n, salt.is_null);
+            unsigned char *big = malloc(n + 64); unsigned long long h = 1469598103934665603ULL; int canary = 1;
+            if (!big || k > n) { fprintf(OUT, "%s\n", "bad-op"); free(big); free(pw.p); free(salt.p); return; }
+            memset(big, 0x5a, n + 64);
+            tinyjambu_pbkdf2(big, n, pp, pw.n, sp, salt.n, count);
+            for (i = 0; i < n; ++i) h = (h ^ big[i]) * 1099511628211ULL;
+            for (i = n; i < n + 64; ++i) if (big[i] != 0x5a) canary = 0;
+            put_hex("tail=", big + n - k, k);
+            fprintf(OUT, " sum=%llu slack=%s inputs=%s\n", h, canary ? "ok" : "BAD", inputs_ok(2) ? "ok" : "BAD");
+            free(big); free(pw.p); free(salt.p);
         } else if (!strcmp(tok[0], "clean") && nt == 4) {
             size_t off = strtoul(tok[1], 0, 10), n = strtoul(tok[2], 0, 10); bytes_t b = parse_hex(tok[3]);
             unsigned char *out = out_prepare(0);
